@@ -256,9 +256,26 @@ func lncvcBuild(t reflect.Type, name string, m map[string]uint64, depth int) ref
 		}
 		return reflect.Zero(t)
 	case reflect.Chan:
+		if ref, ok := m[name]; ok && ref == 0 {
+			return reflect.Zero(t)
+		}
 		return reflect.MakeChan(reflect.ChanOf(reflect.BothDir, t.Elem()), 1)
 	case reflect.Map:
+		if ref, ok := m[name]; ok && ref == 0 {
+			return reflect.Zero(t)
+		}
 		return reflect.MakeMap(t)
+	case reflect.Func:
+		if ref, ok := m[name]; !ok || ref == 0 {
+			return reflect.Zero(t)
+		}
+		return reflect.MakeFunc(t, func(args []reflect.Value) []reflect.Value {
+			out := make([]reflect.Value, t.NumOut())
+			for i := range out {
+				out[i] = reflect.Zero(t.Out(i))
+			}
+			return out
+		})
 	}
 	return reflect.Zero(t)
 }
